@@ -64,6 +64,18 @@ Definition otsu (x : Q) (l : list Q) : Q :=
     let c := bin_centre lo hi in
     c (argmax_first (variance12 cnt c) (tl splits) 0%Z).
 
+(* evaluation-friendly variant of variance12: the same sums with reduced fractions
+   (Proofs/C18.v: variance12r == variance12) *)
+Definition qsumr (l : list Q) : Q := fold_right (fun x s => Qred (x + s)) 0 l.
+Definition variance12r (cnt : Z -> Z) (c : Z -> Q) (k : Z) : Q :=
+  let lo_ks := filter (fun j => Z.leb j k) bins in
+  let hi_ks := filter (fun j => Z.ltb k j) bins in
+  let w1 := qsumr (map (fun j => inject_Z (cnt j)) lo_ks) in
+  let w2 := qsumr (map (fun j => inject_Z (cnt j)) hi_ks) in
+  let m1 := Qred (qsumr (map (fun j => inject_Z (cnt j) * c j) lo_ks) / w1) in
+  let m2 := Qred (qsumr (map (fun j => inject_Z (cnt j) * c j) hi_ks) / w2) in
+  Qred (w1 * w2 * ((m1 - m2) * (m1 - m2))).
+
 (* tolerant acceptance of the implementation's float result t: it is (up to 1e-12 relative) a bin
    centre whose exact between-class variance is within 1e-9 relative of the maximum *)
 Definition otsu_accepts (x : Q) (l : list Q) (t : Q) : bool :=
@@ -73,8 +85,9 @@ Definition otsu_accepts (x : Q) (l : list Q) (t : Q) : bool :=
   else
     let idx := map (bin_index lo hi) (x :: l) in
     let cnt := count_bin idx in
-    let c := bin_centre lo hi in
-    let v := variance12 cnt c in
+    let c := fun k => Qred (bin_centre lo hi k) in
+    let tbl := map (fun k => (k, variance12r cnt c k)) splits in
+    let v := fun k => match find (fun p => Z.eqb (fst p) k) tbl with Some p => snd p | None => 0 end in
     let kbest := argmax_first v (tl splits) 0%Z in
     existsb (fun k => Qle_bool (Qabs (t - c k)) ((1 # 1000000000000) * (Qabs t + Qabs (hi - lo)))
                       && Qle_bool ((1 - (1 # 1000000000)) * v kbest) (v k)) splits.
